@@ -36,7 +36,7 @@ theorem jit_epilogue_simL (env : Env) (haddr : Nat → Option Nat) (um : Bool) (
       σ'.get 3 = σ0.get 3 ∧ σ'.get 5 = σ0.get 5 ∧ σ'.get 13 = σ0.get 13 ∧ σ'.get 14 = σ0.get 14 ∧ σ'.get 15 = σ0.get 15 ∧
       (σ'.get X86.RSP).toNat = s'.mem.stack.base + 560 ∧ σ'.log = σ.log ∧ σ'.misaligned = σ.misaligned := by
   obtain ⟨k, σ', h1, h2, h3, h4, h5, h6, h7, h8, hlm⟩ :=
-    entry_epilogue_sim env haddr um c L σ0 σ s' retAddr top r0 hv hsize hpad htop hrip hrax hmem hrsp htb
+    entry_epilogue_sim env haddr um false c L σ0 σ s' retAddr top r0 hv hsize hpad htop hrip hrax hmem hrsp htb
   exact ⟨k, σ', h1, h2, h3, h4, h5, h6, h7, h8, congrArg Prod.fst hlm, congrArg Prod.snd hlm⟩
 
 /-- **From call to return, with helper calls.**  As `jit_call_to_return`, for programs that may call helpers
